@@ -229,7 +229,7 @@ func c1Taint(c *Ctx, rule string) {
 				c.Check(excl || quoted, rule, name, slot, bc.call.Pos(), "float formatted where NaN/±Inf are excluded (%v) or between two quote bytes (%v)", excl, quoted)
 			case "Write", "AppendBytes":
 				d := Desc(args[1])
-				ok := regexp.MustCompile(`^Bytes\(.*\.buf\)$`).MatchString(d) || d == "encodeReflected(enc, obj)#0" || d == "encodeReflected(enc, val)#0"
+				ok := escapedBytes(args[1], 0)
 				c.Check(ok, rule, name, slot, bc.call.Pos(), "bytes written verbatim are another encoder's already-escaped buffer or the reflected encoder's output (%s)", d)
 			case "AppendTime":
 				c.Bad(rule, name, slot, bc.call.Pos(), "time.AppendFormat output (layout text and zone names are arbitrary) is written to the encoder buffer raw; format into a scratch buffer and escape it")
@@ -1043,47 +1043,88 @@ func c1Pairing(c *Ctx, rule string) {
 	// EncodeEntry tail
 	ee := c.Method(CorePath, "jsonEncoder", "EncodeEntry")
 	if c.Anchor(rule, "zapcore.jsonEncoder.EncodeEntry", ee != nil) {
-		var open, closeNS, closeB, ending, fieldsCall ssa.Instruction
-		InstrsDeep(ee, func(in ssa.Instruction) {
-			if b, ok := appendByteConst(c, in); ok {
-				if b == '{' && open == nil {
-					open = in
-				}
-				if b == '}' {
-					closeB = in
+		// by path exploration (the helpers that lead to addFields / closeOpenNamespaces explored inline): the first write
+		// to the line is '{'; the call-site fields are added, then the open namespaces closed; the last two writes are
+		// '}' and the line ending
+		funcs := coreFuncs(c)
+		frame := map[*ssa.Function]bool{}
+		writes := map[*ssa.Function]bool{}
+		isLeaf := func(f *ssa.Function) bool { return f.Name() == "addFields" || f.Name() == "closeOpenNamespaces" }
+		for _, f := range funcs {
+			for _, o := range encBufCalls(c, f) {
+				if isMutatingBufMethod(o.m) {
+					writes[f] = true
 				}
 			}
-			if cl, ok := in.(*ssa.Call); ok {
+		}
+		for changed := true; changed; {
+			changed = false
+			for _, f := range funcs {
+				for _, cl := range Calls(f) {
+					sc := StaticCallee(cl)
+					if sc == nil {
+						continue
+					}
+					if (isLeaf(sc) || frame[sc]) && !frame[f] && !isLeaf(f) {
+						frame[f], changed = true, true
+					}
+					if writes[sc] && !writes[f] {
+						writes[f], changed = true, true
+					}
+				}
+			}
+		}
+		seqs, trunc := ConcPaths(ee, ConcCfg{
+			Prune: true, MaxStates: 400000,
+			Inline: func(h *ssa.Function) bool { return frame[h] },
+			Event: func(in ssa.Instruction, st *ConcState) string {
+				cl, isCall := in.(*ssa.Call)
+				if !isCall {
+					return ""
+				}
 				if f := CalleeFunc(cl); f != nil {
 					switch f.Name() {
-					case "closeOpenNamespaces":
-						closeNS = in
 					case "addFields":
-						fieldsCall = in
-					case "AppendString":
-						if strings.HasSuffix(Desc(Args(cl)[1]), ".LineEnding") {
-							ending = in
+						return "fields"
+					case "closeOpenNamespaces":
+						return "closeNS"
+					}
+					if f.Pkg() != nil && f.Pkg().Path() == "go.uber.org/zap/buffer" && isMutatingBufMethod(f.Name()) {
+						if args := Args(cl); len(args) > 0 && encBufRecv(c, args[0]) {
+							if b, ok := appendByteConst(c, in); ok && (b == '{' || b == '}') {
+								return string(b)
+							}
+							if len(args) == 2 && strings.HasSuffix(st.Desc(args[1]), ".LineEnding") {
+								return "eol"
+							}
+							return "w"
 						}
 					}
 				}
-			}
-		})
-		ok := open != nil && closeNS != nil && closeB != nil && ending != nil && fieldsCall != nil
-		if ok {
-			for _, x := range []ssa.Instruction{open, fieldsCall, closeNS, closeB, ending} {
-				ok = ok && mustPass(ee, func(i ssa.Instruction) bool { return i == x })
-			}
-			ok = ok && Dominates(open, fieldsCall) && Dominates(fieldsCall, closeNS) && Dominates(closeNS, closeB) && Dominates(closeB, ending)
-			// '{' is the first write
-			first := !ExistsPath(ee, nil, func(i ssa.Instruction) bool {
-				for _, o := range encBufCalls(c, ee) {
-					if ssa.Instruction(o.call) == i && isMutatingBufMethod(o.m) && i != open {
-						return true
+				if sc := StaticCallee(cl); sc != nil && writes[sc] && !frame[sc] {
+					return "w"
+				}
+				if !cl.Call.IsInvoke() && cl.Call.StaticCallee() == nil {
+					if _, isB := cl.Call.Value.(*ssa.Builtin); !isB {
+						return "w" // a user sub-encoder: may write
 					}
 				}
-				return false
-			}, func(i ssa.Instruction) bool { return i == open })
-			ok = ok && first
+				return ""
+			},
+		})
+		reFrame := regexp.MustCompile(`^\{ (w )*fields closeNS (w )*\} eol $`)
+		var badF []string
+		for _, sq := range seqs {
+			if !reFrame.MatchString(strings.Join(strings.Split(sq, " ; "), " ") + " ") {
+				badF = append(badF, sq)
+			}
+		}
+		if len(badF) > 3 {
+			badF = append(badF[:3:3], "… "+itoa(len(badF)-3)+" more")
+		}
+		ok := !trunc && len(seqs) > 0 && len(badF) == 0
+		if !ok {
+			c.Notes = append(c.Notes, fmt.Sprintf("object-frame offending paths: %v (truncated=%v)", badF, trunc))
 		}
 		c.Check(ok, rule, ee.String(), "object-frame", ee.Pos(), "every entry is '{' … fields … closeOpenNamespaces … [stack] … '}' line-ending, each on every path and in this order")
 	}
@@ -2131,4 +2172,60 @@ func c1Brackets(c *Ctx, rule string) {
 	if n < 3 {
 		c.Bad(rule, "bracket-writing entry points", "count", token.NoPos, "expected at least 3 entry points of the JSON encoder that write brackets, found %d", n)
 	}
+}
+
+// escapedBytes: v is the content of an encoder's line buffer (x.buf.Bytes()), the result of encodeReflected, the null
+// literal - or a parameter of an unexported helper every call site of which passes such bytes.
+func escapedBytes(v ssa.Value, depth int) bool {
+	if depth > 4 {
+		return false
+	}
+	switch x := Strip(v).(type) {
+	case *ssa.Call:
+		if f := CalleeFunc(x); f != nil && f.Name() == "Bytes" && f.Pkg() != nil && f.Pkg().Path() == "go.uber.org/zap/buffer" {
+			if args := Args(x); len(args) == 1 {
+				if ld, ok := args[0].(*ssa.UnOp); ok && ld.Op == token.MUL {
+					if fa, isFA := ld.X.(*ssa.FieldAddr); isFA && fieldName(fa.X.Type(), fa.Field) == "buf" {
+						return true
+					}
+				}
+			}
+		}
+	case *ssa.Extract:
+		if cl, ok := x.Tuple.(*ssa.Call); ok && x.Index == 0 {
+			if f := CalleeFunc(cl); f != nil && f.Name() == "encodeReflected" {
+				return true
+			}
+		}
+	case *ssa.Parameter:
+		f := x.Parent()
+		if f == nil || !Eligible(f) {
+			return false
+		}
+		idx := -1
+		for i, q := range f.Params {
+			if q == x {
+				idx = i
+			}
+		}
+		sites := sitesOf(f)
+		if idx < 0 || len(sites) == 0 {
+			return false
+		}
+		for _, s := range sites {
+			args := Args(s)
+			if idx >= len(args) || !escapedBytes(args[idx], depth+1) {
+				return false
+			}
+		}
+		return true
+	case *ssa.Phi:
+		for _, e := range x.Edges {
+			if !escapedBytes(e, depth+1) {
+				return false
+			}
+		}
+		return len(x.Edges) > 0
+	}
+	return false
 }
